@@ -265,9 +265,9 @@ func (c *ctx) addressLaws(fam, shape string, p types.SpendPolicy, allSubsetsUpTo
 		b.Violate("C14/address/differs-from-definition/"+kindOf(p),
 			fmt.Sprintf("Address()=%v, definition (blake2b(\"sia/address|\"||v1||policy with children opaque) / unlock-conditions Merkle root) gives %v [%s]", addr, want, trunc(shape, 120)),
 			map[string]string{"policy": policyString(p), "policy_hex": trunc(hex.EncodeToString(modelEncode(p)), 100000), "got": addr.String(), "want": want.String()})
-		return
+	} else {
+		b.Count("address_matches_definition", 1)
 	}
-	b.Count("address_matches_definition", 1)
 	// whole policy
 	if op, ok := c.realOpaque(p); ok {
 		oa, ok2 := c.realAddress("opaque(p)", op)
